@@ -12,7 +12,7 @@ RULE = ('field lists of 0..6 parts, text and file parts interleaved, empty value
         'x boundary strings (alnum and \'+_-.) x max_memfile_size below/above the body (text inside the in-memory budget) x Content-Length or '
         'chunked framing x fragmenting stream; through Ombott.__call__. Non-trivial = more than one part or a special character or adversarial '
         'content; distinct = distinct request body.')
-REQUIRED = ['interleaved_upload_reads', 'posts', 'text_parts', 'file_parts', 'repeated_text_names', 'repeated_file_names', 'mixed_repeated_names', 'names_with_semicolon',
+REQUIRED = ['text_budget_met_within_4_bytes', 'interleaved_upload_reads', 'posts', 'text_parts', 'file_parts', 'repeated_text_names', 'repeated_file_names', 'mixed_repeated_names', 'names_with_semicolon',
             'names_with_equals', 'names_with_space', 'names_with_backslash', 'non_ascii_names', 'filenames_with_semicolon', 'spooled_to_disk',
             'chunked_framing', 'adversarial_content', 'empty_file_content', 'bytes_compared', 'zero_parts']
 ASSUMPTIONS = ['names and file names contain no double quote, CR or LF and are non-empty (an empty file name is the browser\'s "no file chosen" and is treated as a text field by design)',
@@ -46,13 +46,16 @@ def encode(fields, boundary):
 
 
 def text_volume(fields):
+    """Exactly what the in-memory budget is charged with: the header block of every part (its lines joined by CRLF,
+    without the blank line) plus the bytes of every text value."""
     tot = 0
     for f in fields:
         if f['kind'] == 'text':
-            tot += len(f'Content-Disposition: form-data; name="{f["name"]}"'.encode()) + len(f['value'].encode())
+            tot += len(f'Content-Disposition: form-data; name="{f["name"]}"'.encode('utf8')) + len(f['value'].encode('utf8'))
         else:
-            tot += len(f'Content-Disposition: form-data; name="{f["name"]}"; filename="{f["filename"]}"'.encode()) + 2
-            tot += len('Content-Type: ' + (f['ctype'] or '')) + 2
+            tot += len(f'Content-Disposition: form-data; name="{f["name"]}"; filename="{f["filename"]}"'.encode('utf8'))
+            if f['ctype']:
+                tot += 2 + len('Content-Type: ' + f['ctype'])
     return tot
 
 
@@ -345,9 +348,14 @@ def random_unit(ctx, unit):
         boundary = rng.choice(BOUNDARIES)
         fields = gen_fields(rng, boundary)
         body_len = len(encode(fields, boundary))
-        tv = text_volume(fields) + 16
-        B = rng.choice([tv, tv + 1, max(tv, body_len - 1), max(tv, body_len), body_len + tv + 100, 102400, max(tv, 64)])
         framing = rng.choice(['cl', 'cl', 'chunked'])
+        tv = max(1, text_volume(fields))
+        # the budget exactly met, and 1..4 bytes to spare (the blank line between headers and data is 4 bytes)
+        B = rng.choice([tv, tv, tv + 1, tv + 2, tv + 3, tv + 4, tv + 16, max(tv, body_len - 1), max(tv, body_len), body_len + tv + 100, 102400, max(tv, 64)])
+        if B <= tv + 4:
+            ctx.count('text_budget_met_within_4_bytes')
+        if framing == 'chunked' and B < 16:
+            B = max(B, 16)
         policy = rng.choice(['full', ('rand', rng), 'one' if body_len < 400 else 'full'])
         classify(ctx, fields)
         nontriv = len(fields) > 1 or any(f.get('adversarial') for f in fields) or any(set(f['name']) & set(';= \\') for f in fields)
